@@ -36,6 +36,20 @@ theorem removes_frame (n : Name) : ∀ (l : List Name) (o : Out Key Content), n 
     have : n ≠ m := fun e => h (by rw [e]; exact List.mem_cons_self)
     simp [applyOp, this]
 
+theorem removes_mem (n : Name) : ∀ (l : List Name) (o : Out Key Content), n ∈ l →
+    (l.foldl (fun o m => applyOp o (.remove m)) o).files n = none
+  | [], _, h => by cases h
+  | a :: as, o, h => by
+    simp only [List.foldl_cons]
+    by_cases han : n ∈ as
+    · exact removes_mem n as _ han
+    · rw [removes_frame n as _ han]
+      have : n = a := by
+        rcases List.mem_cons.mp h with h | h
+        · exact h
+        · exact absurd h han
+      simp [applyOp, this]
+
 theorem removes_cache : ∀ (l : List Name) (o : Out Key Content),
     (l.foldl (fun o m => applyOp o (.remove m)) o).cache = o.cache
   | [], _ => rfl
